@@ -2,29 +2,29 @@ package props
 
 import "qeepverif/internal/fw"
 
-// Workload families added in rounds 9-13 (DESIGN.md, section 7), appended to the rule texts that the evidence files report.
+// Workload families added in rounds 9-15 (DESIGN.md, section 7), appended to the rule texts that the evidence files report.
 func init() {
 	for id, more := range map[string]string{
-		"C01": "Rounds 9-13: interleaved construction and re-armed interior tensors; wide fan-in (one Concat over 33..130 interior tensors); selections between neighbouring doubles inside a graph; deep ladders run under a CPU-time bound (20 s for milliseconds of work) instead of a wall clock; operand provenances (13 of 16 leaf constructions go through Reshape / Slice / Concat / Patch / adopted gradients / reducers / MatMul with the identity / Scale(1) / Transpose / a back-propagated graph / a no-op BackPropagate); one long-lived Config object for two creations in three; abandoned consumers.",
-		"C02": "Rounds 9-13: saturated arguments; extreme second operands (subnormal divisors, 1e300 factors); tiny scalar arguments (exponents 1e-17..1e-300, scalings 1e+-300); scale factors 1 and -1; results that overflow with a finite derivative; selections between neighbouring doubles; Concat over 33..130 operands; arbitrary index / dim / shape arguments on tracked operands (whatever is accepted must back-propagate); abandoned consumers and derived tracked operands in every gradient check.",
-		"C03": "Rounds 9-13: special arguments; every broadcast-compatible pair inside the colliding shape groups (incl. polynomial-hash collisions); exponents of tiny non-zero magnitude over zero / negative bases; neighbouring doubles for all same-shape operations and Equals; one-element power-of-two operands down to 2^-1074.",
-		"C04": "Rounds 9-13: every rank pair 2..6, A.A, zero rows, explicitly broadcast operands; mixed magnitudes inside one contraction (per-position scalings 2^+-1020, exact results); structured operands (identity plus skew part, unit triangular, permutation, stochastic, symmetric, rank one).",
-		"C05": "Rounds 9-13: cancelling giants, huge offsets; the colliding shape groups (every reducer along every dimension, both orders, twice in one process); kept results (3..8 reductions of one square / cubic operand, all results read again at the end).",
-		"C06": "Rounds 9-13: window rows at depth 2 and 3, large constructor shapes, Eye to 256 (1000), signed zeros; sibling results over one shared Concat result (all read after all were built); fresh Broadcast / Reshape / UnSqueeze results first read by each consumer kind.",
-		"C07": "Rounds 9-13: non-finite operand values; NaN and +-Inf planted in an otherwise uniform upstream gradient; abandoned consumers of the expanded result; constants with a history.",
-		"C08": "Rounds 9-13: histories draw from EVERY differentiable operation (wideOp) and all six comparisons; tracking independence of forward values on special data (NaN, signed zeros, infinities, subnormals, ties; untracked / tracked / half-tracked, bit for bit); the reused Config object.",
-		"C09": "Rounds 9-13: device values, one index object across tensor sizes; deep chains of blocks that read their input twice (24..96 blocks) under a CPU-time bound; BackPropagate on tensors derived from a graph after its pass must return nil; NewFC size preconditions with explicit initializers and with a reused initializer map.",
-		"C10": "Rounds 9-13: optimizer steps and non-finite constants inside histories; Zeros / Ones constructors; all six comparisons; held parameters (tensors the caller keeps, handed to NewFC through custom initializers).",
-		"C11": "Rounds 9-13: the same data objects at every step, derived bias, large logits (forward side); monitoring read-outs before the back-propagation; shape-neutral glue before the loss; MSE arguments swapped; after an omitted reset every update must be refused.",
-		"C12": "Rounds 9-13: paired-soft labels, structured CE rows, poison batches; the same prediction object evaluated again after its loss was back-propagated; a tensor evaluated against itself.",
-		"C13": "Rounds 9-13: labels thresholded from a back-propagated stage; rounds on the re-armed prediction object of the previous round.",
-		"C14": "Rounds 9-13: huge and subnormal value classes, zero-value structs, odd slopes; the colliding shape groups for every activation and every Softmax dimension; inputs of 16 384+ elements with leading sizes no small worker count divides (the child processes of a run differ in GOMAXPROCS: 1, 2, 3, 4, 5, 7, all).",
-		"C15": "Rounds 9-13: tiny class, refused calls before the decided behaviour; two or three heads over one tracked input, one back-propagation per head; rounds on one re-armed input object through one layer object.",
-		"C16": "Rounds 9-13: extreme scales, overflow of one unit, custom initializers of func / slice type; colliding [batch, outputs] shapes; all tracked / frozen combinations of W, B and the input with closed-form gradients.",
-		"C17": "Rounds 9-13: gradient sources Scale-rule (whole factor), non-finite elements, operands with extra leading 1-dimensions; rates 3, 5, -7, -1, -2, -1e308 and the zero value of the SGD struct; one optimizer over the colliding shape groups; the element must be the IEEE value of w - lr*g or its fused form.",
-		"C18": "Rounds 9-13: location / spread specs, sigma exactly 1 with a non-zero mean, first draws of fresh processes (independence tables), the nil spelling of the scalar shape, long histories (16 x 120 000 / 500 000 four-element draws, none may come back), Full constants that agree in their leading digits, the sign of zero constants.",
-		"C19": "Rounds 9-13: the same object in both roles, value copies, neighbouring doubles, labels of tiny magnitude (0 against 1e-200), column / row / vector rank mixes among the rejected calls; same-length batches dropped after use with a garbage collection after every step.",
-		"C20": "Rounds 9-13: shared optimizer, shared index, private constants, read-shared, first use, storms of 128 / 256 goroutines; shared loss objects over varying batch shapes; refused operations (error texts); private MatMul / Dot with real entries; rounding-sensitive shares; bursts of Transpose / Flatten alternating between shared tensors.",
+		"C01": "Rounds 9-15: interleaved construction and re-armed interior tensors; wide fan-in (one Concat over 33..130 interior tensors); selections between neighbouring doubles inside a graph; deep ladders run under a CPU-time bound (20 s for milliseconds of work) instead of a wall clock; operand provenances (13 of 16 leaf constructions go through Reshape / Slice / Concat / Patch / adopted gradients / reducers / MatMul with the identity / Scale(1) / Transpose / a back-propagated graph / a no-op BackPropagate); one long-lived Config object for two creations in three; abandoned consumers.",
+		"C02": "Rounds 9-15: saturated arguments; extreme second operands (subnormal divisors, 1e300 factors); tiny scalar arguments (exponents 1e-17..1e-300, scalings 1e+-300); scale factors 1 and -1; results that overflow with a finite derivative; selections between neighbouring doubles; Concat over 33..130 operands; arbitrary index / dim / shape arguments on tracked operands (whatever is accepted must back-propagate); abandoned consumers and derived tracked operands in every gradient check.",
+		"C03": "Rounds 9-15: special arguments; every broadcast-compatible pair inside the colliding shape groups (incl. polynomial-hash collisions); exponents of tiny non-zero magnitude over zero / negative bases; neighbouring doubles for all same-shape operations and Equals; one-element power-of-two operands down to 2^-1074.",
+		"C04": "Rounds 9-15: every rank pair 2..6, A.A, zero rows, explicitly broadcast operands; mixed magnitudes inside one contraction (per-position scalings 2^+-1020, exact results); structured operands (identity plus skew part, unit triangular, permutation, stochastic, symmetric, rank one).",
+		"C05": "Rounds 9-15: cancelling giants, huge offsets; the colliding shape groups (every reducer along every dimension, both orders, twice in one process); kept results (3..8 reductions of one square / cubic operand, all results read again at the end).",
+		"C06": "Rounds 9-15: window rows at depth 2 and 3, large constructor shapes, Eye to 256 (1000), signed zeros; sibling results over one shared Concat result (all read after all were built); fresh Broadcast / Reshape / UnSqueeze results first read by each consumer kind.",
+		"C07": "Rounds 9-15: non-finite operand values; NaN and +-Inf planted in an otherwise uniform upstream gradient; abandoned consumers of the expanded result; constants with a history.",
+		"C08": "Rounds 9-15: histories draw from EVERY differentiable operation (wideOp) and all six comparisons; tracking independence of forward values on special data (NaN, signed zeros, infinities, subnormals, ties; untracked / tracked / half-tracked, bit for bit); the reused Config object.",
+		"C09": "Rounds 9-15: device values, one index object across tensor sizes; deep chains of blocks that read their input twice (24..96 blocks) under a CPU-time bound; BackPropagate on tensors derived from a graph after its pass must return nil; NewFC size preconditions with explicit initializers and with a reused initializer map.",
+		"C10": "Rounds 9-15: optimizer steps and non-finite constants inside histories; Zeros / Ones constructors; all six comparisons; held parameters (tensors the caller keeps, handed to NewFC through custom initializers).",
+		"C11": "Rounds 9-15: the same data objects at every step, derived bias, large logits (forward side); monitoring read-outs before the back-propagation; shape-neutral glue before the loss; MSE arguments swapped; after an omitted reset every update must be refused.",
+		"C12": "Rounds 9-15: paired-soft labels, structured CE rows, poison batches; the same prediction object evaluated again after its loss was back-propagated; a tensor evaluated against itself.",
+		"C13": "Rounds 9-15: labels thresholded from a back-propagated stage; rounds on the re-armed prediction object of the previous round.",
+		"C14": "Rounds 9-15: huge and subnormal value classes, zero-value structs, odd slopes; the colliding shape groups for every activation and every Softmax dimension; inputs of 16 384+ elements with leading sizes no small worker count divides (the child processes of a run differ in GOMAXPROCS: 1, 2, 3, 4, 5, 7, all).",
+		"C15": "Rounds 9-15: tiny class, refused calls before the decided behaviour; two or three heads over one tracked input, one back-propagation per head; rounds on one re-armed input object through one layer object.",
+		"C16": "Rounds 9-15: extreme scales, overflow of one unit, custom initializers of func / slice type; colliding [batch, outputs] shapes; all tracked / frozen combinations of W, B and the input with closed-form gradients.",
+		"C17": "Rounds 9-15: gradient sources Scale-rule (whole factor), non-finite elements, operands with extra leading 1-dimensions; rates 3, 5, -7, -1, -2, -1e308 and the zero value of the SGD struct; one optimizer over the colliding shape groups; the element must be the IEEE value of w - lr*g or its fused form.",
+		"C18": "Rounds 9-15: location / spread specs, sigma exactly 1 with a non-zero mean, first draws of fresh processes (independence tables), the nil spelling of the scalar shape, long histories (16 x 120 000 / 500 000 four-element draws, none may come back), Full constants that agree in their leading digits, the sign of zero constants.",
+		"C19": "Rounds 9-15: the same object in both roles, value copies, neighbouring doubles, labels of tiny magnitude (0 against 1e-200), column / row / vector rank mixes among the rejected calls; same-length batches dropped after use with a garbage collection after every step.",
+		"C20": "Rounds 9-15: shared optimizer, shared index, private constants, read-shared, first use, storms of 128 / 256 goroutines; shared loss objects over varying batch shapes; refused operations (error texts); private MatMul / Dot with real entries; rounding-sensitive shares; bursts of Transpose / Flatten alternating between shared tensors.",
 	} {
 		fw.ExtendRule(id, more)
 	}
